@@ -118,7 +118,6 @@ func (x *apiExec) server() *api.APIServer {
 			panic(err)
 		}
 		x.srv, x.srvWm = s, x.e.wm
-		x.e.wm.VerifEnsureTaskChan()
 	}
 	return x.srv
 }
@@ -613,9 +612,12 @@ func (x *apiExec) exec1(a []string) string {
 		if _, ok := apiArity[a[1]]; !ok || len(a)-2 != apiArity[a[1]] {
 			return "bad-op"
 		}
+		// a fresh WalletManager as after process start (no task queue yet, no wallet selected)
+		if err := e.Restart(); err != nil {
+			return "harness-restart-failed"
+		}
 		x.chain()
-		s := x.server()
-		_ = s
+		x.server()
 		old := runtime.GOMAXPROCS(1)
 		out := "done"
 		started := false
